@@ -274,3 +274,22 @@ def dialect_docs():
             out.append(("dialect/" + lang, "\n".join(L) + "\n"))
         _cache["dialects"] = out
     return _cache["dialects"]
+
+
+# Same-shape documents that differ only in their texts: the ordinary streaming use (many similar feature
+# files through one parser / compiler / stream, each result dropped before the next one is made).
+TEMPLATES = [
+    "Feature: doc {n}\n  Background:\n    Given a payload\n      \"\"\"\n      payload of document {n}\n      \"\"\"\n  Scenario: first\n    When it is sent\n      | n | {n} |\n  Scenario: second\n    Then it arrives\n",
+    "@f{n}\nFeature: tagged {n}\n  @s{n} @common\n  Scenario: a\n    Given x {n}\n  @t{n}\n  Scenario Outline: o <v>\n    When <v> {n}\n      | c{n} | <v> |\n    @e{n}\n    Examples:\n      | v |\n      | {n} |\n      | z |\n",
+    "Feature: rules {n}\n  Background:\n    Given fb {n}\n      | k | {n} |\n  Rule: r{n}\n    Background:\n      Given rb {n}\n    Example: e\n      Then y {n}\n        ```\n        body {n}\n        ```\n  Rule: q\n    Example: f\n      * z\n",
+    "# comment {n}\nFeature: plain {n}\n  description {n}\n\n  Scenario: s{n}\n    Given g {n}\n    And a {n}\n    But b\n    # inner {n}\n    When w\n      | a | b |\n      | {n} | {n} |\n",
+    "Feature: sometimes broken {n}\n  Scenario: s\n    Given t {n}\n      | a | b |\n      | {n} |{pad}\n  @tag{n}\n  Scenario: next\n    Given y\n",
+]
+
+
+def template_series(rng, k):
+    t = TEMPLATES[rng.randrange(len(TEMPLATES))]
+    out = []
+    for n in range(k):
+        out.append(("template:%d" % n, t.replace("{n}", str(n + rng.randrange(3))).replace("{pad}", " x |" if (n % 3) else "")))
+    return out
